@@ -130,25 +130,19 @@ Definition holds_C13 (c : build_case) : bool :=
 
 Definition verdict_build (c : build_case) : list bool := [corr_build c; holds_C02 c; holds_C13 c; holds_C05 c].
 
-(* ---------- helpers.go and the per-type IsMarkedForRemoval methods ---------- *)
+(* ---------- helpers.go ---------- *)
 Record mark_case := {
   mk_key : string;
   mk_mark : string;                 (* MarkForRemoval(key) *)
   mk_is : string * bool;            (* IsMarkedForRemoval(key) *)
   mk_rt : string * bool;            (* IsMarkedForRemoval(MarkForRemoval(key)) *)
-  mk_clear : string;                (* ClearRemovalMarker(key) *)
-  mk_mount : string * bool;         (* (&Mount{Destination: key}).IsMarkedForRemoval() *)
-  mk_dev : string * bool;           (* (&LinuxDevice{Path: key}).IsMarkedForRemoval() *)
-  mk_env : string * bool            (* (&KeyValue{Key: key}).IsMarkedForRemoval() *)
+  mk_clear : string                 (* ClearRemovalMarker(key) *)
 }.
 Definition sb_eqb (x y : string * bool) : bool := String.eqb (fst x) (fst y) && Bool.eqb (snd x) (snd y).
 Definition corr_marks (c : mark_case) : bool :=
   let k := mk_key c in
   String.eqb (mk_mark c) (mark k) && sb_eqb (mk_is c) (is_marked k) && sb_eqb (mk_rt c) (is_marked (mark k)) &&
-  String.eqb (mk_clear c) (rawkey k) &&
-  sb_eqb (mk_mount c) (mount_is_marked {| m_dest := k; m_type := ""; m_source := ""; m_opts := [] |}) &&
-  sb_eqb (mk_dev c) (device_is_marked {| d_path := k; d_type := ""; d_major := 0; d_minor := 0; d_mode := None; d_uid := None; d_gid := None |}) &&
-  sb_eqb (mk_env c) (env_is_marked (k, "")).
+  String.eqb (mk_clear c) (rawkey k).
 (* the round trip (C02_build_marker_roundtrip) and "an unmarked key is returned unchanged" on the implementation *)
 Definition holds_C02_marks (c : mark_case) : bool :=
   let k := mk_key c in
@@ -157,7 +151,22 @@ Definition holds_C02_marks (c : mark_case) : bool :=
   | String "-" rest => sb_eqb (mk_is c) (rest, true)
   | _ => sb_eqb (mk_is c) (k, false)
   end.
-(* the generator recognises removals through the per-type methods: they must agree with the helper *)
-Definition holds_C13_marks (c : mark_case) : bool :=
-  sb_eqb (mk_mount c) (mk_is c) && sb_eqb (mk_dev c) (mk_is c) && sb_eqb (mk_env c) (mk_is c).
-Definition verdict_marks (c : mark_case) : list bool := [corr_marks c; holds_C02_marks c; holds_C13_marks c].
+Definition verdict_marks (c : mark_case) : list bool := [corr_marks c; holds_C02_marks c].
+
+(* ---------- mount.go / device.go / env.go: the per-type IsMarkedForRemoval methods ---------- *)
+Record typed_case := {
+  tk_key : string;
+  tk_mount : string * bool;         (* (&Mount{Destination: key}).IsMarkedForRemoval() *)
+  tk_dev : string * bool;           (* (&LinuxDevice{Path: key}).IsMarkedForRemoval() *)
+  tk_env : string * bool            (* (&KeyValue{Key: key}).IsMarkedForRemoval() *)
+}.
+Definition corr_typed_marks (c : typed_case) : bool :=
+  let k := tk_key c in
+  sb_eqb (tk_mount c) (mount_is_marked {| m_dest := k; m_type := ""; m_source := ""; m_opts := [] |}) &&
+  sb_eqb (tk_dev c) (device_is_marked {| d_path := k; d_type := ""; d_major := 0; d_minor := 0; d_mode := None; d_uid := None; d_gid := None |}) &&
+  sb_eqb (tk_env c) (env_is_marked (k, "")).
+(* the generator recognises removals through the per-type methods: each reads its key field with the '-' convention *)
+Definition holds_C13_typed (c : typed_case) : bool :=
+  let want := match tk_key c with String "-" rest => (rest, true) | k => (k, false) end in
+  sb_eqb (tk_mount c) want && sb_eqb (tk_dev c) want && sb_eqb (tk_env c) want.
+Definition verdict_typed (c : typed_case) : list bool := [corr_typed_marks c; holds_C13_typed c].
